@@ -49,7 +49,8 @@ def neZero (x : Dbl) : Bool := !x.isZero
 /-- the integer `v` with `x == (double)v`, if `x` is finite and integer valued with `|v| < 2^53`
     (what `(L = (long)x, (double)x == L)` of `BinaryFormatter::nput` tests, on the range it is used). -/
 def toInt? (x : Dbl) : Option Int :=
-  if x.ex == 0 then (if x.man == 0 then some 0 else none)
+  if x.man ≥ 2 ^ 52 then none                 -- not a binary64 fraction field (never the case for a real double)
+  else if x.ex == 0 then (if x.man == 0 then some 0 else none)
   else if x.ex ≥ 2047 then none
   else if x.ex > 1075 then none                 -- |x| ≥ 2^53
   else
